@@ -891,6 +891,19 @@ func (e *Env) call(n *CNode) Val {
 			cxFail("%s: no message type with this accessor", n.Name)
 		}
 		return Val{t: t, ty: rt}
+	case "mhas", "mget":
+		// raw domain / value lookups of a Go map (no nil-map guard): pattern-friendly forms of `k in m` and m[k]
+		mv := e.expr(n.Args[0])
+		kx := e.expr(n.Args[1])
+		mt, ok := mv.ty.Underlying().(*types.Map)
+		if !ok {
+			cxFail("%s needs a map", n.Name)
+		}
+		kd, kv := g.mapKeys(mt)
+		if n.Name == "mhas" {
+			return Val{t: fmt.Sprintf("(select (select %s %s) %s)", g.get(e.state, kd), mv.t, kx.t), ty: tBool}
+		}
+		return Val{t: fmt.Sprintf("(select (select %s %s) %s)", g.get(e.state, kv), mv.t, kx.t), ty: mt.Elem()}
 	case "onceDone":
 		// onceDone(addr(x.f)): the sync.Once at that address has run its function (ghost flag of the Once.Do model)
 		v := e.expr(n.Args[0])
